@@ -17,7 +17,7 @@ RULE = ('Each run builds 1-2 argument lists (direct TexArgs, or node.args of a p
         'compared with a Python list of serialised groups. Non-trivial: at least one mutating operation succeeded; '
         'distinct by digest of (owners, initial groups, resolved operations).')
 STUBS = []
-PROBES = ['duplicate-present', 'insert-negative', 'insert-beyond-len', 'pop-default', 'rejected-malformed',
+PROBES = ['same-object-twice', 'duplicate-present', 'insert-negative', 'insert-beyond-len', 'pop-default', 'rejected-malformed',
           'rejected-absent', 'rejected-index', 'slice-alias-mutated', 'owner-cmd', 'owner-env', 'string-coerced']
 ASSUMPTIONS = ['whitespace-only strings are not part of the operation set (the property does not define them)',
                'extend() is only given well-formed elements']
@@ -125,7 +125,27 @@ def run(case):
             if len(set(M)) < len(M):
                 count('probe.duplicate-present')
             try:
-                if op == 'append':
+                if op in ('append', 'insert') and n and c % 6 == 5:
+                    # re-use an element that is already in the list (the same
+                    # object then occurs twice), as `args.insert(0, args[-1])` does
+                    j = b % n
+                    count('probe.same-object-twice')
+                    if op == 'append':
+                        desc = ('append', k, 'args[%d]' % j)
+                        M.append(M[j])
+                        R.append(R[j])
+                    else:
+                        i = (b // 2) % (2 * n + 5) - (n + 2)
+                        desc = ('insert', k, i, 'args[%d]' % j)
+                        M.insert(i, M[j])
+                        R.insert(i, R[j])
+                elif op == 'extend' and n and c % 6 == 5:
+                    lo = b % n
+                    desc = ('extend', k, 'args[%d:%d]' % (lo, lo + 2))
+                    count('probe.same-object-twice')
+                    M.extend(M[lo:lo + 2])
+                    R.extend(R[lo:lo + 2])
+                elif op == 'append':
                     g = POOL[c % len(POOL)]
                     desc = ('append', k, g, 'obj' if as_obj else 'str')
                     M.append(g)
@@ -280,7 +300,11 @@ def run(case):
                                      'groups are %r' % (step, desc, str(real[j]), model[j])}
                         break
                     shadow = [str(x) for x in real[j].all if not (isinstance(x, str) and x.isspace())]
-                    if shadow != cur:
+                    # compared as multisets: the shadow list must hold exactly the
+                    # groups of the list; its ORDER is not observable through anything
+                    # the property names (once the same object has been in the list
+                    # twice, pop() may give up the other occurrence in the shadow list)
+                    if sorted(shadow) != sorted(cur):
                         violation = {'class': 'shadow-out-of-step', 'detail': 'after step %d %r: list %d holds %r but '
                                      'its shadow list .all holds %r' % (step, desc, j, cur, [str(x) for x in real[j].all])}
                         break
